@@ -182,7 +182,17 @@ func (s *Server) processInitial(dctx *dnsContext) (rc resultCode) {
 	// it could be handed over, are only unique within one proxy, and there
 	// may be requests of the previous one still in processing after a
 	// reconfiguration.
-	dctx.clientID, _ = s.clientIDFromDNSContext(pctx)
+	//
+	// The settings may have changed since that check, so the ClientID may
+	// have become invalid.  Fail the request then instead of processing it
+	// without one.
+	var err error
+	dctx.clientID, err = s.clientIDFromDNSContext(pctx)
+	if err != nil {
+		dctx.err = err
+
+		return resultCodeError
+	}
 
 	// Get the client-specific filtering settings.
 	dctx.protectionEnabled, _ = s.UpdatedProtectionStatus()
